@@ -23,7 +23,7 @@ Rec == ndJsonDeserialize(IOEnv.TRACE)
 NKeys == atoi(IOEnv.NKEYS)
 KeysT == 1..NKeys
 
-VARIABLES l, A
+VARIABLES l, A, C     \* C: configuration of the current behaviour (from its reset line)
 
 -----------------------------------------------------------------------------
 (* recorded state -> Layer B state record                                  *)
@@ -39,6 +39,8 @@ StOf(r) ==
                  [s |-> r.hist[i].s, vid |-> r.hist[i].vid, act |-> r.hist[i].act,
                   sealed |-> r.hist[i].sealed, lv |-> r.hist[i].lv]],
      snaps |-> Range(r.snaps)]
+
+Say(kind, prop, i, what) == PrintT(ToJson(<<kind, prop, i, what>>))
 
 IsOk(r) == r.ret = "ok"
 \* operations that go through the compaction worker (the hook reports the choice made)
@@ -121,12 +123,12 @@ CompactExpected(i) ==
            [] ChoiceKind(r) = 2 -> OpMove(pre, ChoiceIds(r), ChoiceDest(r), w)
            [] ChoiceKind(r) = 3 -> OpDrop(pre, ChoiceIds(r), w)
 
-Expected(i) ==
+Expected(i, cfg) ==
     LET r == Rec[i] pre == Pre(i) IN
     CASE r.op.op = "write"   -> OpWrite(pre, {[k |-> r.op.items[j].k, t |-> r.op.items[j].t,
                                                v |-> r.op.items[j].v] : j \in 1..Len(r.op.items)})
       [] r.op.op = "rotate"  -> OpRotate(pre)
-      [] r.op.op = "flush"   -> OpFlush(pre, r.op.w)
+      [] r.op.op = "flush"   -> OpFlushSep(pre, r.op.w, cfg.sep)
       [] r.op.op \in CompactOps -> CompactExpected(i)
       [] r.op.op = "reopen"  -> OpReopen(pre)
       [] r.op.op = "clear"   -> OpClear(pre)
@@ -230,10 +232,84 @@ KnownHit(r, a) ==
         LET S == r.obs.get[j].S b == [a EXCEPT !.haz = {}] IN
         Defined(b, k, S) /\ r.obs.get[j].v[k] # Oracle(b, k, S)}
 
-Say(kind, prop, i, what) == PrintT(ToJson(<<kind, prop, i, what>>))
+-----------------------------------------------------------------------------
+(* key-value separation: predicates on the recorded blob state             *)
+(***************************************************************************)
+\* pointers <<k, s, bf, off, dsz, sz>> of the tables of a version
+PtrsOf(rst, sv) ==
+    UNION {Range(ById(rst.tbls, t).ptrs) : t \in AllIds(sv.lv)}
+
+\* blobs <<k, s, off, ulen, dlen>> of blob file f that no table of the version points to
+GarbageOf(rst, sv, f) ==
+    LET used == {p[4] : p \in {q \in PtrsOf(rst, sv) : q[3] = f}}
+    IN {b \in Range(ById(rst.bfs, f).blobs) : b[3] \notin used}
+
+SumOf(S, idx) == LET RECURSIVE Sm(_) Sm(T) == IF T = {} THEN 0 ELSE LET x == CHOOSE y \in T : TRUE IN x[idx] + Sm(T \ {x}) IN Sm(S)
+
+GcEntry(sv, f) ==
+    LET es == {g \in Range(sv.gc) : g[1] = f}
+    IN IF es = {} THEN <<f, 0, 0, 0>> ELSE CHOOSE g \in es : TRUE
+
+\* C09: the garbage recorded for every blob file of the version equals the blobs of that
+\* file no table of the version points to (count, bytes, on-disk bytes)
+GcExact(rst) ==
+    LET sv == rst.hist[Len(rst.hist)] IN
+    \A f \in Range(sv.blobs) :
+        LET g == GarbageOf(rst, sv, f) e == GcEntry(sv, f) IN
+        /\ e[2] = Cardinality(g)
+        /\ e[3] = SumOf(g, 4)
+        /\ e[4] = SumOf(g, 5)
+
+\* C09: stale_blob_bytes reports the sum
+StaleIsSum(r) ==
+    LET sv == r.st.hist[Len(r.st.hist)] IN
+    r.obs.stale_blob_bytes = SumOf(Range(sv.gc), 4)
+
+\* C08/C09: every pointer of the newest version points into a blob file the version lists,
+\* whose file exists and holds a blob of that key / seqno at that offset
+PointersPresent(rst) ==
+    LET sv == rst.hist[Len(rst.hist)] IN
+    \A p \in PtrsOf(rst, sv) :
+        /\ p[3] \in Range(sv.blobs)
+        /\ p[3] \in Ids(rst.bfs)
+        /\ ById(rst.bfs, p[3]).exists /\ ById(rst.bfs, p[3]).err = ""
+        /\ \E b \in Range(ById(rst.bfs, p[3]).blobs) : b[3] = p[4] /\ b[1] = p[1]
+
+\* C08: no retained version holds a pointer that fails to resolve
+NoDangling(rst) == \A i \in 1..Len(rst.hist) : rst.hist[i].dangling = <<>>
+
+\* C09: links recorded in a table equal the pointers it holds
+LinksExact(rst) ==
+    \A j \in 1..Len(rst.tbls) :
+        LET x == rst.tbls[j]
+            fs == {p[3] : p \in Range(x.ptrs)} IN
+        /\ {lk[1] : lk \in Range(x.links)} = fs
+        /\ \A lk \in Range(x.links) :
+              LET ps == {p \in Range(x.ptrs) : p[3] = lk[1]} IN
+              lk[2] = Cardinality(ps) /\ lk[3] = SumOf(ps, 6) /\ lk[4] = SumOf(ps, 5)
+
+\* C09: a blob file nothing pointed into before a merge / drop commit is gone after it
+DeadDropped(i) ==
+    LET r == Rec[i] pre == Rec[StIdx(i - 1)].st post == r.st
+        svp == pre.hist[Len(pre.hist)] svq == post.hist[Len(post.hist)] IN
+    r.op.op \in CompactOps /\ "choice" \in DOMAIN r.info /\ r.info.choice[1] \in {1, 3}
+      /\ svq.vid # svp.vid =>
+        \A f \in Range(svp.blobs) :
+            (GcEntry(svp, f)[3] = ById(pre.bfs, f).bytes /\ ById(pre.bfs, f).n > 0)
+                => f \notin Range(svq.blobs)
+
+BlobChecks(i, r) ==
+    /\ (NoDangling(r.st)      \/ Say("VIOL", "DANGLE", i, [h \in 1..Len(r.st.hist) |-> r.st.hist[h].dangling]))
+    /\ (PointersPresent(r.st) \/ Say("VIOL", "PTR", i, r.st.bfs))
+    /\ (GcExact(r.st)         \/ Say("VIOL", "GC", i, <<r.st.hist[Len(r.st.hist)].gc, r.st.bfs>>))
+    /\ (StaleIsSum(r)         \/ Say("VIOL", "STALE", i, r.obs.stale_blob_bytes))
+    /\ (LinksExact(r.st)      \/ Say("VIOL", "LINKS", i, r.st.tbls))
+    /\ (DeadDropped(i)        \/ Say("VIOL", "DEAD", i, r.st.hist[Len(r.st.hist)].blobs))
+
+
 
 \* evaluate everything on line i with ghost a (already advanced); always TRUE
-CheckLine(i, a) ==
+CheckLine(i, a, cfg) ==
     LET r == Rec[i] IN
     IF r.op.op = "reset" THEN
         /\ (Post(i) = InitState \/ Say("DRIFT", "init", i, DiffFields(Post(i), InitState)))
@@ -259,18 +335,21 @@ CheckLine(i, a) ==
     /\ (r.op.op \notin CompactOps \/ "choice" \notin DOMAIN r.info
           \/ ChoiceKind(r) # 1 \/ MergeOutputOk(i, r.op.w)
           \/ Say("DRIFT", "mergeout", i, r.info))
-    /\ (Expected(i) = st        \/ Say("DRIFT", "state", i, DiffFields(Expected(i), st)))
+    /\ (Expected(i, cfg) = st   \/ Say("DRIFT", "state", i, DiffFields(Expected(i, cfg), st)))
+    /\ (~cfg.sep.on \/ BlobChecks(i, r))
 
 -----------------------------------------------------------------------------
-Init == l = 0 /\ A = AInit
+CfgOf(r) == [sep |-> [on |-> r.op.blob, big |-> Range(r.op.big)]]
+Init == l = 0 /\ A = AInit /\ C = [sep |-> NoSep]
 
 Next ==
     /\ l < Len(Rec)
     /\ l' = l + 1
     /\ A' = GhostStep(A, l + 1)
-    /\ CheckLine(l + 1, A')
+    /\ C' = IF Rec[l + 1].op.op = "reset" THEN CfgOf(Rec[l + 1]) ELSE C
+    /\ CheckLine(l + 1, A', C')
 
-Spec == Init /\ [][Next]_<<l, A>>
+Spec == Init /\ [][Next]_<<l, A, C>>
 
 Accepted ==
     \/ TLCGet("stats").diameter - 1 = Len(Rec)
